@@ -80,6 +80,16 @@ def run_property(P, tier, seed, replay=None):
         else:
             # (2) exhaustive model check of the specification itself
             for m in P.get("mc", []):
+                if len(m) >= 4 and m[3] == "expect_violation":
+                    # anti-vacuity: a specification mutant must violate the invariants
+                    try:
+                        core.tlc(ctx["sdir"], m[0], m[1], work, workers=ctx["workers"], timeout=ctx["timeout"], constants=_tier_consts(m, tier))
+                    except Infra as e:
+                        if "is violated" in str(e):
+                            ctx["tlc_runs"].append(dict(kind="mc-mutant", module=m[0], cfg=m[1], cmd="tlc -config %s %s (specification mutant)" % (m[1], m[0]), result="invariant violated as expected"))
+                            continue
+                        raise
+                    raise Infra("specification mutant %s/%s did not violate any invariant (vacuous model?)" % (m[0], m[1]))
                 r = core.tlc(ctx["sdir"], m[0], m[1], work, workers=ctx["workers"], timeout=ctx["timeout"],
                              constants=_tier_consts(m, tier), extra=(["-coverage", "1"] if tier == "thorough" and P.get("coverage") else None))
                 if r["distinct"] < 1:
@@ -94,7 +104,12 @@ def run_property(P, tier, seed, replay=None):
             P["pre_exec"](P, ctx, cases)
         by_id = {c["case"]: c for c in cases}
         # (4)+(5)
-        rejects, jr, tpath = exec_and_judge(P, ctx, cases, "main")
+        if replay and P.get("nondeterministic") and rp.get("events"):
+            tpath = os.path.join(ctx["work"], "trace-main.ndjson")
+            core.write_ndjson(tpath, rp["events"])
+            rejects, jr = core.judge(ctx["sdir"], P["trace"][0], P["trace"][1], tpath, ctx["work"], timeout=ctx["timeout"])
+        else:
+            rejects, jr, tpath = exec_and_judge(P, ctx, cases, "main")
         ctx["tlc_runs"].append(dict(kind="judge", module=P["trace"][0], cfg=P["trace"][1], generated=jr["generated"],
                                     distinct=jr["distinct"], wall=round(jr["wall"], 1), cmd=jr["cmd"]))
         states += jr["distinct"]
@@ -111,7 +126,19 @@ def run_property(P, tier, seed, replay=None):
                 if cid not in seen and cid in by_id:
                     seen.add(cid)
                     rej_cases.append(by_id[cid])
-            rj2, _, _ = exec_and_judge(P, ctx, rej_cases, "confirm")
+            if P.get("nondeterministic"):
+                # schedule- or randomness-dependent behaviour: the recorded trace is the real-code
+                # behaviour; re-judge exactly those recorded events alone (a fresh JVM, no sharding)
+                ids = {c["case"] for c in rej_cases}
+                cpath = os.path.join(ctx["work"], "trace-confirm.ndjson")
+                with open(cpath, "w") as out, open(tpath) as src:
+                    for line in src:
+                        m = core.re.search(r'"case":(-?\d+)', line)
+                        if m and int(m.group(1)) in ids:
+                            out.write(line)
+                rj2, _ = core.judge(ctx["sdir"], P["trace"][0], P["trace"][1], cpath, ctx["work"], timeout=ctx["timeout"])
+            else:
+                rj2, _, _ = exec_and_judge(P, ctx, rej_cases, "confirm")
             again = {(cid, reason) for cid, i, reason in rj2}
             for cid, i, reason in rejects:
                 if (cid, reason) in again:
@@ -191,6 +218,10 @@ def run_property(P, tier, seed, replay=None):
         return 1 if nviol else 0
     except Infra as e:
         log("INFRA-ERROR property=%s: %s" % (prop, e))
+        return 2
+    except Exception as e:  # an orchestrator bug is never a verdict
+        import traceback
+        log("INFRA-ERROR property=%s: orchestrator exception %r\n%s" % (prop, e, traceback.format_exc()))
         return 2
     finally:
         if not os.environ.get("VERIF_KEEP"):
